@@ -949,6 +949,40 @@ func ruleR139(c *Ctx) {
 				return ok && isMailboxChan(in.TypeOf(s.Chan))
 			})
 		})
+		// the one accepted bypass: the node's goroutine does not exist yet (a flag that is set only where the
+		// goroutine is launched) — there is no mailbox order to respect, the event would be discarded anyway
+		if len(bad) > 0 {
+			ex := existenceFlags(p)
+			allEx := true
+			for _, path := range bad {
+				last := path[len(path)-1].Node()
+				ret, isRet := last.(*ast.ReturnStmt)
+				if !isRet {
+					allEx = false
+					continue
+				}
+				under := enclosingIfWhere(p, ret, f.Body, func(cond ast.Expr, inThen bool) bool {
+					cnd := unparen(cond)
+					neg := false
+					if u, ok := cnd.(*ast.UnaryExpr); ok && u.Op == token.NOT {
+						neg, cnd = true, unparen(u.X)
+					}
+					cl, ok := cnd.(*ast.CallExpr)
+					if !ok {
+						return false
+					}
+					fv, meth, _ := atomicFieldCall(in, cl)
+					return fv != nil && ex[fv] && meth == "Load" && neg == inThen
+				}) != nil
+				if !under {
+					allEx = false
+				}
+			}
+			if allEx {
+				c.Ok(f, f.Decl, "delivery in "+f.QName(), what, "posts on every path except while the node's goroutine does not exist yet (flag set only where it is launched)", true)
+				continue
+			}
+		}
 		c.Check(len(bad) == 0, f, f.Decl, "delivery in "+f.QName(), what, ifElse(len(bad) == 0, "every path posts the event into the mailbox", "a path returns without posting: "+witnessLines(g, bad)))
 	}
 	if n == 0 {
@@ -1302,4 +1336,68 @@ func ruleR143(c *Ctx) {
 	if n == 0 {
 		c.Missing("builder ids", "no id assignment was found in schema/builder.go")
 	}
+}
+
+// existenceFlags: atomic.Bool fields of node types whose every store is `Store(true)` inside the sync.Once.Do literal
+// that launches the node's run goroutine, after the go statement: the flag says "the mailbox has an owner".
+func existenceFlags(p *Prog) map[*types.Var]bool {
+	stores := map[*types.Var]int{}
+	good := map[*types.Var]int{}
+	for _, f := range p.Funcs {
+		if f.Body == nil || f.Pkg.PkgPath != pathBpmn {
+			continue
+		}
+		in := info(f)
+		inspectNoLit(f.Body, func(m ast.Node) bool {
+			cl, ok := m.(*ast.CallExpr)
+			if !ok {
+				return true
+			}
+			fv, meth, args := atomicFieldCall(in, cl)
+			if fv == nil || !isNamed(fv.Type(), "sync/atomic", "Bool") || (meth != "Store" && meth != "Swap" && meth != "CompareAndSwap") {
+				return true
+			}
+			stores[fv]++
+			if meth != "Store" || len(args) != 1 {
+				return true
+			}
+			if id, ok := unparen(args[0]).(*ast.Ident); !ok || id.Name != "true" {
+				return true
+			}
+			// inside a literal handed to Once.Do that launches a goroutine before this statement
+			if f.Lit == nil {
+				return true
+			}
+			pc, ok := p.Parent(f.Lit).(*ast.CallExpr)
+			if !ok {
+				return true
+			}
+			pf := p.EnclosingFunc(pc)
+			if pf == nil || !isSyncMethod(info(pf), pc, "Once", "Do") {
+				return true
+			}
+			launched := false
+			for _, st := range f.Body.List {
+				if st.Pos() >= cl.Pos() {
+					break
+				}
+				if gs, ok := st.(*ast.GoStmt); ok {
+					if fn := callee(in, gs.Call); fn != nil && fn.Name() == "run" {
+						launched = true
+					}
+				}
+			}
+			if launched {
+				good[fv]++
+			}
+			return true
+		})
+	}
+	out := map[*types.Var]bool{}
+	for fv, n := range stores {
+		if n > 0 && good[fv] == n {
+			out[fv] = true
+		}
+	}
+	return out
 }
